@@ -395,3 +395,12 @@ func WithAnon(fn *ssa.Function) []*ssa.Function {
 	}
 	return out
 }
+
+// ConstBool returns the value of a boolean constant.
+func ConstBool(v ssa.Value) (bool, bool) {
+	c, ok := Strip(v).(*ssa.Const)
+	if !ok || c.Value == nil || c.Value.Kind() != constant.Bool {
+		return false, false
+	}
+	return constant.BoolVal(c.Value), true
+}
